@@ -51,8 +51,10 @@ func TestVerifC26Bounded(t *testing.T) {
 	var samples []string
 	check := func(d []byte, runtime bool) {
 		evals++
-		distinct++
 		esc := internal.EscapeBytes(d)
+		if esc != string(d) {
+			distinct++ // the enumeration never repeats a string; non-trivial = something had to be escaped
+		}
 		if evals%20011 == 7 && len(samples) < 3 {
 			samples = append(samples, fmt.Sprintf("%q -> %q", d, esc))
 		}
@@ -93,5 +95,5 @@ func TestVerifC26Bounded(t *testing.T) {
 		}
 	}
 	gen(nil)
-	fmt.Printf("BOUNDED: {\"evaluations\":%d,\"distinct\":%d,\"rule\":\"every byte string of length <=2 over all 256 values and of length 3..4 over a 17-byte corner alphabet (controls, quotes, backslash, octal/hex digits, letters of escapes, 0x7f..0xff): unescape(EscapeBytes(d)) == d for both instantiations of the generic; the Go-runtime half (protodesc.NewFile + Default()) on length <=1, a stratified part of length 2 and all of length 3 (thorough: everything)\",\"exhaustive\":true,\"bound\":\"len<=2 over 256 values; len<=4 over 17 values\",\"samples\":[%q,%q,%q]}\n", evals, distinct, samples[0], samples[1], samples[2])
+	fmt.Printf("BOUNDED: {\"evaluations\":%d,\"distinct\":%d,\"rule\":\"every byte string of length <=2 over all 256 values and of length 3..4 over a 17-byte corner alphabet (controls, quotes, backslash, octal/hex digits, letters of escapes, 0x7f..0xff): unescape(EscapeBytes(d)) == d for both instantiations of the generic; distinct_nontrivial counts the strings (never enumerated twice) in which at least one byte had to be escaped; the Go-runtime half (protodesc.NewFile + Default()) on length <=1, a stratified part of length 2 and all of length 3 (thorough: everything)\",\"exhaustive\":true,\"bound\":\"len<=2 over 256 values; len<=4 over 17 values\",\"samples\":[%q,%q,%q]}\n", evals, distinct, samples[0], samples[1], samples[2])
 }
